@@ -1,4 +1,4 @@
 From Coq Require Import ZArith List Extraction ExtrOcamlBasic.
-From N2kV Require Import Model.SoftFloat Model.NumDefs Model.MsgIR Model.MsgExec Model.MsgAppendDefs Gen.GenMessages.
+From N2kV Require Import Model.SoftFloat Model.NumDefs Model.MsgIR Model.MsgExec Model.MsgAppendDefs Model.BinStatusDefs Gen.GenMessages.
 Extraction Language OCaml.
-Extraction "Extract/model_C05.ml" append_model exec_set exec_parse ieval all_setters all_parsers all_outsigs untranslated_ids fn_names decode b64 is_nan Z.add Z.mul Z.div Z.modulo Z.opp.
+Extraction "Extract/model_C05.ml" append_model bs_get bs_set exec_set exec_parse ieval all_setters all_parsers all_outsigs untranslated_ids fn_names decode b64 is_nan Z.add Z.mul Z.div Z.modulo Z.opp.
